@@ -181,9 +181,15 @@ class Screen(object):
                 self._put(ch)
 
     # ------------------------------------------------------------------------------------
+    view_indent = 0  # a reader that knows the output is indented by n blanks looks past them
+
+    def _view(self, text):
+        n = self.view_indent
+        return text[n:] if n and text[:n] == " " * n else text
+
     def text_rows(self):
         """Rows as right-stripped strings; trailing empty rows removed."""
-        out = ["".join(c for c, _ in row).rstrip() for row in self.rows]
+        out = [self._view("".join(c for c, _ in row).rstrip()) for row in self.rows]
         while out and out[-1] == "":
             out.pop()
         return out
@@ -191,7 +197,7 @@ class Screen(object):
     def row_text(self, r):
         if r < 0 or r >= len(self.rows):
             return ""
-        return "".join(c for c, _ in self.rows[r]).rstrip()
+        return self._view("".join(c for c, _ in self.rows[r]).rstrip())
 
     def row_cells(self, r):
         if r < 0 or r >= len(self.rows):
